@@ -11,6 +11,7 @@ import (
 	"strings"
 
 	"bsim/props"
+	"bsim/race"
 	"bsim/vm"
 )
 
@@ -80,7 +81,7 @@ func selftestDeterminism(args []string) int {
 	for w := 0; w < nw; w++ {
 		go func() {
 			for j := range jobs {
-				if props.Registry[j.id].Race {
+				if props.Registry[j.id].Race != race.Enabled { // C19 runs in the -race binary only, everything else in the plain one
 					results <- ""
 					continue
 				}
